@@ -197,6 +197,7 @@ func cmdCheck(args []string) int {
 	notes := map[string]bool{}
 	var harnessSumm []map[string]interface{}
 	obligations, discharged, inconclusive := 0, 0, 0
+	folded := 0
 	unwind := map[string]int{}
 	seenOb := map[string]bool{}
 	os.MkdirAll(filepath.Join(verifRoot, "replays"), 0o755)
@@ -223,6 +224,12 @@ func cmdCheck(args []string) int {
 		summ["solver"] = r.Solver
 		summ["nondet_inputs"] = len(r.Nondets)
 		summ["assumptions"] = r.NAssume
+		if len(r.Folded) > 0 {
+			summ["asserts_decided_by_simplifier"] = r.Folded
+			for _, v := range r.Folded {
+				folded += v
+			}
+		}
 		evals += r.Queries
 		solverS += r.SolverS
 		for k, v := range r.Functions {
@@ -350,6 +357,7 @@ func cmdCheck(args []string) int {
 			"obligations":              obligations,
 			"discharged":               discharged,
 			"inconclusive":             inconclusive,
+			"asserts_decided_by_term_simplifier": folded,
 			"solver_time_s":            solverS,
 			"functions_encoded":        funcs,
 			"stubs":                    stubs,
